@@ -2187,6 +2187,14 @@ escape_u4:
                 ++position_;
                 goto escape_expect_surrogate_pair1;
             }
+            else if (JSONCONS_UNLIKELY(unicode_traits::is_low_surrogate(cp_)))
+            {
+                err_handler_(json_errc::illegal_surrogate_value, *this);
+                ec = json_errc::illegal_surrogate_value;
+                more_ = false;
+                string_state_ = parse_string_state::escape_u4;
+                return cur;
+            }
             else
             {
                 unicode_traits::convert(&cp_, 1, buffer_);
